@@ -75,16 +75,38 @@ func (i *interpreter) tryIntrinsic(fr *frame, fn *ssa.Function, args []value) (v
 	return nil, false
 }
 
-func zeroResults(fn *ssa.Function) value {
-	res := fn.Signature.Results()
+// noopObj is the payload of interface values returned by no-op callees (metric
+// objects, loggers): invoking any method on them does nothing and returns zero
+// values (again no-op objects for interface results).
+type noopObj struct{}
+
+func noopZero(t types.Type) value {
+	if it, ok := t.Underlying().(*types.Interface); ok && it.NumMethods() > 0 && !isErrorType(t) {
+		return iface{t: t, v: noopObj{}}
+	}
+	return zero(t)
+}
+
+func isErrorType(t types.Type) bool {
+	return types.Identical(t, types.Universe.Lookup("error").Type())
+}
+
+func zeroResultsOf(sig *types.Signature) value {
+	res := sig.Results()
 	switch res.Len() {
 	case 0:
 		return nil
 	case 1:
-		return zero(res.At(0).Type())
+		return noopZero(res.At(0).Type())
 	}
-	return zero(res)
+	t := make(tuple, res.Len())
+	for k := range t {
+		t[k] = noopZero(res.At(k).Type())
+	}
+	return t
 }
+
+func zeroResults(fn *ssa.Function) value { return zeroResultsOf(fn.Signature) }
 
 // ---- host <-> interpreter value conversion for pure library functions ----
 
